@@ -194,6 +194,9 @@ func cmdCheck(args []string) {
 				if fn.Synthetic != "" && !strings.HasPrefix(fn.Synthetic, "instance of") && fn.Synthetic != "package initializer" {
 					continue // wrappers, bound-method thunks
 				}
+				if fn.Parent() != nil && con == nil && !eng.spawnedUnjoined(fn) {
+					continue // closures are verified in the context that calls them
+				}
 				c := eng.verifyFunc(fn, con)
 				ctxs = append(ctxs, c)
 				funcsUnder = append(funcsUnder, c.name)
